@@ -1,6 +1,7 @@
 package main
 
 import (
+	"go/token"
 	"encoding/json"
 	"flag"
 	"fmt"
@@ -626,6 +627,13 @@ func (r *checkRun) decide(noEvidence bool, evidenceOut string) int {
 		for i, o := range fails {
 			if r.accumulatorGone(o) {
 				undecided = append(undecided, "per-iteration clause about a variable the edited loop no longer assigns (the loop accumulates differently; nothing decided for this clause): "+o.Name+" ("+o.Verdict+")")
+				continue
+			}
+			if r.provedInCallee(o) {
+				// the inlined copy of a callee's obligation: the callee itself is verified for every input
+				// and discharges it, so it holds in every calling context; that the copy does not discharge
+				// is a weakness of the encoding of the inlined body (a loop cut without its invariants)
+				undecided = append(undecided, "inlined copy of an obligation that the callee itself discharges for every input: "+o.Name+" ("+o.Verdict+")")
 				continue
 			}
 			if i < nrep {
@@ -1255,7 +1263,10 @@ func relevantFuncs(w *World, spec *Specs, prop string) []*ssa.Function {
 }
 
 func isBindFailure(be string) bool {
-	return strings.Contains(be, "unknown identifier") || strings.Contains(be, "no field") || strings.Contains(be, "no head value")
+	// every translation failure of a clause counts: what matters is that it is new with respect to the
+	// baseline (a renamed local may now resolve to a type or a package: "unknown decoder.blockTypes; haskey
+	// of non-map")
+	return strings.TrimSpace(be) != ""
 }
 
 func (r *checkRun) bindErrors() []string {
@@ -1437,6 +1448,16 @@ func (r *checkRun) accumulatorGone(o *Oblig) bool {
 	}
 	accs := map[string]bool{}
 	ast.Inspect(ex, func(x ast.Node) bool {
+		// "the element appended last": X[len(X)-1]
+		if ix, ok := x.(*ast.IndexExpr); ok {
+			if be, ok := ix.Index.(*ast.BinaryExpr); ok && be.Op == token.SUB {
+				if c2, ok := be.X.(*ast.CallExpr); ok {
+					if id2, ok := c2.Fun.(*ast.Ident); ok && id2.Name == "len" && len(c2.Args) == 1 && types.ExprString(c2.Args[0]) == types.ExprString(ix.X) {
+						accs[types.ExprString(ix.X)] = true
+					}
+				}
+			}
+		}
 		c, ok := x.(*ast.CallExpr)
 		if !ok {
 			return true
@@ -1478,8 +1499,49 @@ func (r *checkRun) accumulatorGone(o *Oblig) bool {
 	if n < 1 || len(loops) == 0 {
 		return false
 	}
-	// (the verifier's loop ordinals follow SSA positions, which need not be the order of the for statements
-	// in the source: the variable counts as still accumulated if ANY loop of the function assigns it)
+	// the verifier's loop ordinals follow SSA positions, which need not be the order of the for statements in
+	// the source (nested loops): loop N is the statement whose header contains the position of its SSA loop
+	// head; if that cannot be told, the variable counts as still accumulated if ANY loop assigns it
+	var hpos token.Pos
+	for _, fr := range r.res {
+		if fr.enc != nil && fr.enc.topFrame != nil && shortName(fr.fn) == o.Fn {
+			for h, li := range fr.enc.topFrame.loops {
+				if li.ord == n {
+					hpos = token.NoPos
+					// (phis carry the position of the variable's declaration: skip them)
+					for _, b := range append([]*ssa.BasicBlock{h}, h.Succs...) {
+						for _, in := range b.Instrs {
+							if _, isPhi := in.(*ssa.Phi); !isPhi && in.Pos().IsValid() && !hpos.IsValid() {
+								hpos = in.Pos()
+							}
+						}
+					}
+				}
+			}
+		}
+	}
+	if hpos.IsValid() {
+		var pick ast.Stmt
+		for _, lp := range loops {
+			var lbrace token.Pos
+			switch x := lp.(type) {
+			case *ast.ForStmt:
+				lbrace = x.Body.Lbrace
+			case *ast.RangeStmt:
+				lbrace = x.Body.Lbrace
+			}
+			_ = lbrace
+			if lp.Pos() <= hpos && hpos < lp.End() {
+				pick = lp // the innermost statement containing the position (it comes last in pre-order)
+			}
+		}
+		if pick != nil {
+			loops = []ast.Stmt{pick}
+		}
+	}
+	if os.Getenv("GOVC_DEBUG") != "" {
+		fmt.Fprintf(os.Stderr, "DEBUG accumulatorGone %s loop %d hpos=%v candidates=%d accs=%v\n", o.Fn, n, r.w.prog.Fset.Position(hpos), len(loops), accs)
+	}
 	assigned := false
 	for _, lp := range loops {
 		ast.Inspect(lp, func(x ast.Node) bool {
@@ -1577,4 +1639,37 @@ func frameDeps(w *World, spec *Specs, prop string, anchorFns map[string]bool) ma
 		}
 	}
 	return out
+}
+
+var inlNameRe = regexp.MustCompile(`^(.*)#(SAFE|FRAME|PRE):inl:([a-z]+):(.*)#\d+$`)
+
+// provedInCallee: o is "<caller>#FAM:inl:<kind>:<callee>:<text>#k"; the callee is verified on its own in this
+// run, has obligations "<callee>#FAM:<kind>:<text>#j", and all of them are discharged.
+func (r *checkRun) provedInCallee(o *Oblig) bool {
+	m := inlNameRe.FindStringSubmatch(o.Name)
+	if m == nil {
+		return false
+	}
+	fam, kind, rest := m[2], m[3], m[4]
+	found, all := false, true
+	for _, fr := range r.res {
+		if fr.enc == nil {
+			continue
+		}
+		callee := shortName(fr.fn)
+		if !strings.HasPrefix(rest, callee+":") {
+			continue
+		}
+		text := strings.TrimPrefix(rest, callee+":")
+		pfx := callee + "#" + fam + ":" + kind + ":" + text + "#"
+		for _, co := range fr.enc.obs {
+			if strings.HasPrefix(co.Name, pfx) {
+				found = true
+				if co.Verdict != "unsat" {
+					all = false
+				}
+			}
+		}
+	}
+	return found && all
 }
